@@ -1,36 +1,196 @@
 """C19 — exact De Bruijn weights and heaviest path; strand-invariant canonical k-mers; exact 4-mer tables (pkg/obikmer)."""
-import itertools, json
+import itertools, json, os
 from collections import Counter
 
-PROPS = ["C19/Props.v"]
+PROPS = ["C19/Props.v", "C19/PropsFp.v"]
 META = dict(
     text="Rocq theorems over an executable transcription of pkg/obikmer (k-mer words as N, `mod 4^k` exactly where the code masks): "
          "(1) KmerMap.NormalizedKmerSlice, as repaired, returns for every window of k unambiguous bases min(k-mer, reverse-complement k-mer) "
          "(centre base dropped in sparse mode: proved), and a sequence and its reverse complement give the same multiset of keys, for every "
-         "word width and every k that fits (2k <= width, mask proved exact incl. 2k = width); (2) DeBruijnGraph.Push accumulates for every "
-         "k-mer the sum of count x occurrences (lengths <, = and > k; k = 1..31) for sequences over acgtu, and an exact characterisation for "
-         "IUPAC sequences; (3) the specification of the heaviest walk is the maximum total weight over all walks from a source node, "
-         "has_cycle holds exactly when a closed walk exists and then no walk is returned; (4) Count4Mer counts exactly the 4-mer windows "
-         "(modulo 2^16). On every run the real MakeDeBruijnGraph/Push/Weight/Nexts/Heads/HasCycle/HaviestPath/DecodePath/LongestConsensus, "
-         "NewKmerMap/NormalizedKmerSlice/KmerAsString (Uint64/128/256, k up to 128, sparse and dense, both strands) and Count4Mer run on "
-         "boundary-biased and random cases against a direct Python oracle (brute-force counting, DP + enumeration of all walks), and the Coq "
-         "model is evaluated by vm_compute on the same cases (weights, heads, cycle verdict, heaviest-walk weight, key lists, tables).",
-    note="Trusted: Coq kernel + vm_compute; harness, generators and the Python oracle; obifp words modelled as N modulo 2^width (C20 proves "
-         "the obifp operations exact); Go map order abstracted (nodes compared as key-sorted lists). Partial: the Go algorithms HasCycle (DFS) "
-         "and HaviestPath (label-correcting search with a heap) are NOT modelled - they are tied to the proved specification on every run by "
-         "comparing the cycle verdict, the validity of the returned path and its total weight with the model's optimum (graphs up to 45 nodes "
-         "inside Coq, all sizes in the Python oracle). 'Single sequence returned unchanged' and DecodePath are checked by the oracle only; the "
-         "precise condition is 'no repeated (k-1)-mer' (a repeated (k-1)-mer closes a cycle even when all k-mers are distinct). Guards: counts "
-         ">= 1, non-empty graph for HaviestPath (LongestConsensus guards it), 2k <= width. Known findings: IUPAC prefix multiplicity of the "
-         "weights; uint16 wrap of Count4Mer beyond 65535 occurrences.")
-TRUSTED = ["obifp Uint64/128/256 LeftShift/RightShift/And/Or/LessThan are modelled by their exact meaning on N modulo 2^width (property C20)",
-           "Go map iteration order is abstracted: graph nodes are compared as a key-sorted association list"]
+         "word width and every k that fits; the masks of NewKmerMap are ALSO computed with the obifp operations the code uses over the proved "
+         "limb model of C20 (Uint64/128/256, every k: 4^k-1 when 2k <= width, panic otherwise) and proved equal to the N model; KmerAsString "
+         "is the k-mer ('#' for the centre base in sparse mode) and never indexes outside its buffer; (2) DeBruijnGraph.Push accumulates for "
+         "every k-mer the sum of count x occurrences (lengths <, = and > k; k = 1..31) for sequences over acgtu, and - since the repair of the round-1 finding "
+         "iupac-prefix-multiplicity - for ANY IUPAC sequence the sum of count x windows compatible with the k-mer, a reading proved "
+         "symmetric under reverse complement (the pre-repair recursion stays characterised and refuted over dbg_build_pre); weights are positive and built graphs have a source when acyclic; (3) the Go ALGORITHMS are modelled and proved: "
+         "HasCycle (recursive DFS with visited/stack maps) returns exactly has_cycle (= a closed walk exists) for every map iteration order; "
+         "HaviestPath (label-correcting search with a min-heap of node ids and the re-opening visited[next] = false) terminates on acyclic "
+         "graphs within a proved bound and returns a valid walk from a source whose total weight is maximal among ALL walks from sources "
+         "(= the specification best_walk_weight), nil exactly on cyclic graphs; without the re-opening it is refuted by a witness; DecodePath "
+         "spells for any walk the unique string whose k-mers are the walk; LongestConsensus returns that string for the heaviest walk; a "
+         "single sequence comes back unchanged IFF it has no repeated (k-1)-mer (exact condition, both directions proved); (4) Count4Mer "
+         "counts exactly the 4-mer windows (modulo 2^16); (5) the tables iupac / revcompnuc / decode / __single_base_code__ are REGENERATED "
+         "from the current build before every Coq build and the theorems over them (model = tables, expansion of each IUPAC letter = its base "
+         "set, complement consistency and involution, decode inverts) are re-proved by the kernel on every run. On every run the real "
+         "MakeDeBruijnGraph/Push/Weight/Nexts/Heads/HasCycle/HaviestPath/DecodePath/LongestConsensus, obiconsensus.BuildConsensus (k chosen by "
+         "the tool, counts from the count attribute), NewKmerMap/NormalizedKmerSlice/KmerAsString (Uint64/128/256, k up to 128, sparse and "
+         "dense, both strands), KmerMap.Query as obikmersim uses it (Uint128, both strands) and Count4Mer run on boundary-biased and random "
+         "cases against a direct Python oracle, and the Coq model (including the transcribed algorithms: verdict, ACTUAL path, decoding, "
+         "consensus, key strings) is evaluated by vm_compute on the same cases.",
+    note="Trusted: Coq kernel + vm_compute; harness, generators and the Python oracle; obifp words in NormalizedKmerSlice modelled as N modulo "
+         "2^width (the mask construction is tied to C20's limb model by theorem; shift counts are unbounded Z there: kmersize < 2^62); Go maps "
+         "are association lists (lookup default = zero value) and their iteration orders are universally quantified in the theorems (the "
+         "correspondence evaluates the key-sorted order; the result does not depend on it); container/heap with Less = (<) on node ids is a "
+         "multiset whose Pop returns a minimum; Go int distances do not overflow (total weight < 2^63). A path that differs from the "
+         "transcription but is a valid walk of the same maximal weight is NOT an alarm (the property allows any heaviest walk; counted in the "
+         "evidence). Guards: counts >= 1, non-empty graph for HaviestPath (LongestConsensus guards it), 2k <= width, k = 2..31 for the "
+         "single-sequence clause (k = 1: every node has a self loop), min_cov = 0 in LongestConsensus (the coverage trimming uses float mode "
+         "statistics: not modelled), KmerMap.Query is oracle-only (shared canonical k-mers, same result for both strands). Known finding: "
+         "uint16 wrap of Count4Mer beyond 65535 occurrences.")
+TRUSTED = ["obifp Uint64/128/256 LeftShift/RightShift/And/Or/LessThan inside NormalizedKmerSlice are modelled by their exact meaning on N modulo 2^width (property C20); "
+           "the masks of NewKmerMap are additionally computed over C20's proved limb model (C19/MaskFp.v) and proved equal to the N model",
+           "Go map iteration order: graph nodes are compared as a key-sorted association list; HasCycle / Heads orders are universally quantified in the theorems",
+           "container/heap (UInt64Heap, Less = <) is modelled as a multiset whose Pop returns a minimum",
+           "Go int arithmetic of HaviestPath distances is modelled on unbounded N (no overflow: total weight < 2^63)",
+           "regenerated tables: the dump goes through the hook VerifTablesC19 (copies of the package variables) and tools/props/c19.py tables_source"]
+
+VERIF = os.path.dirname(os.path.dirname(os.path.dirname(os.path.abspath(__file__))))
+TABLES_V = os.path.join(VERIF, "coq", "theories", "C19", "Gen", "Tables.v")
+
+
+# ---------------------------------------------------------------- regenerated tables (DESIGN §2.3-B)
+def tables_source(t):
+    """Gallina source of C19/Gen/Tables.v from the harness' table dump (vh c19tables)."""
+    def nl(l):
+        return "[" + "; ".join(str(int(x)) for x in l) + "]"
+    iu = sorted((int(k), v) for k, v in t["iupac"].items())
+    rc = sorted((int(k), int(v)) for k, v in t["revcomp"].items())
+    dec = sorted((int(k), int(v)) for k, v in t["decode"].items())
+    return ("(** GENERATED by tools/props/c19.py regen() from the CURRENT build (vh c19tables, case {\"kind\":\"tables\"}). Do not edit.\n"
+            "    iupac_tab   : obikmer.iupac      (byte, 2-bit codes in the order of the Go slice), sorted by byte;\n"
+            "    revcomp_tab : obikmer.revcompnuc (byte, complement byte), sorted by byte;\n"
+            "    decode_tab  : obikmer.decode     (2-bit code, byte), sorted by code;\n"
+            "    single_tab  : obikmer.__single_base_code__ (every entry; indexed by byte & 31). *)\n"
+            "From Coq Require Import NArith List.\nImport ListNotations.\nOpen Scope N_scope.\n\n"
+            "Definition iupac_tab : list (N * list N) := [%s].\n\n"
+            "Definition revcomp_tab : list (N * N) := [%s].\n\n"
+            "Definition decode_tab : list (N * N) := [%s].\n\n"
+            "Definition single_tab : list N := %s.\n" % (
+                "; ".join("(%d, %s)" % (k, nl(v)) for k, v in iu), "; ".join("(%d, %d)" % p for p in rc),
+                "; ".join("(%d, %d)" % p for p in dec), nl(t["single"])))
+
+
+def dump_tables(ctx):
+    obs, err = ctx.vh("c19tables", [dict(kind="tables")], timeout=60)
+    if obs is None:
+        raise RuntimeError("vh c19tables: %s" % err)
+    return obs[0]
+
+
+def regen(ctx):
+    """Called by check.py before the Coq build: rewrite C19/Gen/Tables.v from the current code (write-if-changed)."""
+    vh, err = ctx.build_harness()
+    if vh is None:
+        raise RuntimeError("harness build failed: %s" % err)
+    t = dump_tables(ctx)
+    src = tables_source(t)
+    os.makedirs(os.path.dirname(TABLES_V), exist_ok=True)
+    old = open(TABLES_V).read() if os.path.exists(TABLES_V) else None
+    if old != src:
+        with open(TABLES_V, "w") as f:
+            f.write(src)
+        ctx.cov["tables_regenerated"] = "changed"
+    else:
+        ctx.cov["tables_regenerated"] = "unchanged"
+    ctx._c19_tables = t
+
+
+# the IUPAC standard, written independently of the Go table (a=0 c=1 g=2 t=3)
+SPEC_IUPAC = dict(a="a", c="c", g="g", t="t", u="t", r="ag", y="ct", s="cg", w="at", k="gt", m="ac",
+                  b="cgt", d="agt", h="act", v="acg", n="acgt")
+
+
+def spec_codes(ch):
+    return sorted("acgt".index(x) for x in SPEC_IUPAC[ch])
+
+
+def table_failures(t):
+    """Executable statement of the table lemmas tab_* of C19/TablesProofs.v (2-5) on the dumped tables: list of (what, symbol)."""
+    bad = []
+    iu = {chr(int(k)): [int(x) for x in v] for k, v in t["iupac"].items()}
+    rc = {chr(int(k)): chr(int(v)) for k, v in t["revcomp"].items()}
+    dec = {int(k): chr(int(v)) for k, v in t["decode"].items()}
+    single = [int(x) for x in t["single"]]
+    # 2. expansion of each letter = its IUPAC base set, strictly increasing codes < 4, key set = the 16 letters
+    for ch in sorted(set(iu) | set(SPEC_IUPAC)):
+        if ch not in SPEC_IUPAC:
+            bad.append(("obikmer.iupac has the unexpected key %r -> %r" % (ch, iu[ch]), ch))
+        elif ch not in iu:
+            bad.append(("obikmer.iupac lacks the letter %r" % ch, ch))
+        elif iu[ch] != spec_codes(ch):
+            bad.append(("obikmer.iupac[%r] = %r, the IUPAC base set is %r" % (ch, iu[ch], spec_codes(ch)), ch))
+    # 3. complement table agrees with complementing the base set; involution except u -> a -> t
+    for ch in sorted(iu):
+        if ch not in rc:
+            bad.append(("obikmer.revcompnuc lacks the letter %r" % ch, ch))
+            continue
+        c = rc[ch]
+        if c not in iu:
+            bad.append(("obikmer.revcompnuc[%r] = %r is not a key of obikmer.iupac" % (ch, c), ch))
+            continue
+        want = sorted(3 - x for x in iu[ch])
+        if iu[c] != want:
+            bad.append(("obikmer.revcompnuc[%r] = %r expands to %r, the complemented base set of %r is %r" % (ch, c, iu[c], ch, want), ch))
+        back = rc.get(c)
+        if back != ("t" if ch == "u" else ch):
+            bad.append(("obikmer.revcompnuc is not an involution at %r: %r -> %r -> %r" % (ch, ch, c, back), ch))
+    for ch in sorted(set(rc) - set(iu)):
+        bad.append(("obikmer.revcompnuc has the key %r that obikmer.iupac lacks" % ch, ch))
+    # 4. decode inverts the unambiguous codes
+    spec_dec = {0: "a", 1: "c", 2: "g", 3: "t"}
+    for code in sorted(set(dec) | set(spec_dec)):
+        if dec.get(code) != spec_dec.get(code):
+            bad.append(("obikmer.decode[%d] = %r, expected %r" % (code, dec.get(code), spec_dec.get(code)), spec_dec.get(code) or dec.get(code)))
+    for ch in "acgt":
+        v = iu.get(ch)
+        if v is not None and len(v) == 1 and dec.get(v[0]) != ch:
+            bad.append(("obikmer.decode[iupac[%r]] = %r: decode does not invert the code of %r" % (ch, dec.get(v[0]), ch), ch))
+    # 5. __single_base_code__: 32 entries < 4, a c g t u -> 0 1 2 3 3, everything else 0
+    if len(single) != 32:
+        bad.append(("__single_base_code__ has %d entries, expected 32 (indexed by byte & 31)" % len(single), "single"))
+    want = {ord(ch) & 31: code for ch, code in zip("acgtu", (0, 1, 2, 3, 3))}
+    for i, v in enumerate(single):
+        if v != want.get(i, 0):
+            bad.append(("__single_base_code__[%d] (letter %r) = %d, expected %d" % (i, chr(96 + i), v, want.get(i, 0)), chr(96 + i) if 1 <= i <= 26 else "single"))
+    # one line per (what, symbol), first failure of a symbol first
+    seen, out = set(), []
+    for w, s in bad:
+        if (w, s) not in seen:
+            seen.add((w, s))
+            out.append((w, s))
+    return out
+
+
+def table_case(sym):
+    """a concrete input through the REAL code that involves the table entry of `sym` (replay of a table obligation)"""
+    if len(sym) == 1 and sym in "acgtu":
+        return dict(kind="kmap", w=64, k=4, sparse=False, s="acgt" + sym + "acgtgca")
+    if len(sym) == 1 and sym.isalpha():
+        return dict(kind="dbg", k=2, seqs=[dict(s="ac" + sym + "gt", count=1)])
+    return dict(kind="c4", s="acgtacgtu")
+
+
+def replay_tables(ctx, t):
+    """the executable statement of the table lemmas (C19/TablesProofs.v) names the failing symbol when a regenerated
+    table no longer satisfies them (the Coq obligation fails too: `broken` then carries the coqc error)"""
+    done = set()
+    for what, sym in table_failures(t):
+        if sym in done or len(done) >= 4:
+            continue
+        done.add(sym)
+        case = table_case(sym)
+        obs = ctx.vh_robust("c19", [case], timeout=60)
+        ctx.violation("table_%s" % (sym if sym.isalnum() else "x"), dict(property="C19", kind="table-obligation", why=what, symbol=sym,
+                                                                         case=case, implementation=obs[0], tables=t))
+
 
 IUPAC = dict(a="a", c="c", g="g", t="t", u="t", r="ag", y="ct", s="cg", w="at", k="gt", m="ac", b="cgt", d="agt", h="act", v="acg", n="acgt")
 COMP = dict(a="t", c="g", g="c", t="a", u="a", r="y", y="r", s="s", w="w", k="m", m="k", b="v", d="h", h="d", v="b", n="n")
 CODE = dict(a=0, c=1, g=2, t=3)
 AMBIG = "ryswkmbdhvn"
-FULL_NODES = 45      # graphs up to this size are also compared on has_cycle / heaviest-walk weight inside Coq
+FULL_NODES = 45      # graphs up to this size are also compared on has_cycle / heaviest-walk weight of the SPECIFICATION inside Coq
+ALGO_NODES = 300     # graphs up to this size: the transcribed ALGORITHMS (DFS, label-correcting search) are run inside Coq and compared
+                     # with the Go code on the verdict, the actual path, its decoding and the consensus
 
 
 def rc(s):
@@ -61,9 +221,11 @@ def window_words(w):
 
 
 def expected_weights(k, seqs, reading):
-    """reading 'full': sum over sequences of count x sum over the full IUPAC expansions e of s of occ(x, e)
-       reading 'prefix': what the recursion of Push/append does: a window is counted once per expansion of the bases BEFORE its end
-       (both coincide with count x occurrences on unambiguous sequences)."""
+    """reading 'window' (the specification, and what Push does since the repair): sum over sequences of count x number of windows
+       of the sequence compatible with the k-mer (symmetric under reverse complement: theorem C19_weights_iupac_strand_symmetric);
+       reading 'full': sum over sequences of count x sum over the full IUPAC expansions e of s of occ(x, e);
+       reading 'prefix': the pre-repair recursion of Push/append: a window counted once per expansion of the bases BEFORE it
+       (all coincide with count x occurrences on unambiguous sequences)."""
     wt = Counter()
     for q in seqs:
         s, cnt = q["s"].lower(), q["count"]
@@ -72,7 +234,7 @@ def expected_weights(k, seqs, reading):
         tot = nexp(s)
         for j in range(len(s) - k + 1):
             win = s[j:j + k]
-            mult = tot // nexp(win) if reading == "full" else nexp(s[:j])
+            mult = tot // nexp(win) if reading == "full" else nexp(s[:j]) if reading == "prefix" else 1
             for x in window_words(win):
                 wt[x] += cnt * mult
     return dict(wt)
@@ -144,13 +306,13 @@ def check_dbg(c, o):
     obs_w = {int(n["kmer"]): n["w"] for n in o.get("nodes") or []}
     key = None
     ambiguous = any(ch in AMBIG for q in c["seqs"] for ch in q["s"].lower())
-    full = expected_weights(k, c["seqs"], "full")
+    full = expected_weights(k, c["seqs"], "window")
     if obs_w != full:
-        if ambiguous and obs_w == expected_weights(k, c["seqs"], "prefix") and set(obs_w) == set(full):
-            key = "iupac-prefix-multiplicity"
-        else:
-            bad = sorted(set(x for x in set(obs_w) | set(full) if obs_w.get(x, 0) != full.get(x, 0)))[:5]
-            fails.append("weights differ from sum(count x occurrences): " + ", ".join("%s impl=%d expected=%d" % (dec(x, k), obs_w.get(x, 0), full.get(x, 0)) for x in bad))
+        bad = sorted(set(x for x in set(obs_w) | set(full) if obs_w.get(x, 0) != full.get(x, 0)))[:5]
+        why = ""
+        if ambiguous and obs_w == expected_weights(k, c["seqs"], "prefix"):
+            why = " (windows counted once per IUPAC expansion of the bases that precede them: the defect repaired by fix: iupac-prefix-multiplicity)"
+        fails.append("weights differ from sum(count x compatible windows)%s: " % why + ", ".join("%s impl=%d expected=%d" % (dec(x, k), obs_w.get(x, 0), full.get(x, 0)) for x in bad))
     # structure as the implementation reports it
     adj = graph_of(set(obs_w), k)
     for n in o.get("nodes") or []:
@@ -178,6 +340,8 @@ def check_dbg(c, o):
         if not o["conserr"]:
             fails.append("consensus returned for an empty graph")
         return fails, key        # HaviestPath on an empty graph: outside the statement (LongestConsensus guards it)
+    if cyc and "expect_cons" in c:
+        fails.append("obiconsensus.BuildConsensus stopped at k=%d but the graph has a cycle" % k)
     if cyc:
         if not o["pathnil"] or o["pathpanic"]:
             fails.append("graph has a cycle but a path is returned")
@@ -206,6 +370,14 @@ def check_dbg(c, o):
         if bb is not None and bb != pw:
             fails.append("path weight %d, enumeration of all walks gives %d" % (pw, bb))
     spelled = dec(path[0], k) + "".join("acgt"[x & 3] for x in path[1:])
+    if "expect_cons" in c:
+        # the same reads went through obiconsensus.BuildConsensus (k estimated by the tool, counts from the count attribute)
+        e = c["expect_cons"]
+        if e["consensus"] != spelled:
+            fails.append("obiconsensus.BuildConsensus (k=%d chosen by the tool) returns %r, the heaviest path spells %r" % (k, e["consensus"], spelled))
+        if e["consgraph"] != len(obs_w) or e["consmaxw"] != max(obs_w.values()) or e["consw"] != sum(q["count"] for q in c["seqs"]):
+            fails.append("obiconsensus attributes graph_size=%d max_occur=%d weight=%d, graph has %d nodes, max weight %d, total count %d" % (
+                e["consgraph"], e["consmaxw"], e["consw"], len(obs_w), max(obs_w.values()), sum(q["count"] for q in c["seqs"])))
     if o["decoded"] != spelled:
         fails.append("DecodePath = %s, path spells %s" % (o["decoded"], spelled))
     if o["conserr"] or o["consensus"] != spelled:
@@ -278,6 +450,49 @@ def check_kmap(c, o, o_rc):
     return fails
 
 
+def longest_repeat(s):
+    """length of the longest substring occurring twice in s (what obisuffix.CommonSuffix measures)"""
+    best = 0
+    n = len(s)
+    for L in range(1, n):
+        seen = set()
+        found = False
+        for i in range(n - L + 1):
+            w = s[i:i + L]
+            if w in seen:
+                found = True
+                break
+            seen.add(w)
+        if not found:
+            break
+        best = L
+    return best
+
+
+def check_ksim(c, o):
+    """obikmersim call path: NewKmerMap[Uint128](refs, k, sparse, -1).Query(q): for each reference the number of (query k-mer, reference
+    k-mer) pairs with the same canonical key, as the code reports it (pairs + 1), and the same for rc(q) (strand invariance)"""
+    k = eff_k(c["k"], c["sparse"])
+    if 2 * k > 128 or k < 1:
+        return []              # outside the quantifier (the k-mer does not fit the Uint128 word: NewKmerMap refuses it)
+    if o["kind"] != "ksim":
+        return ["NewKmerMap/Query %s" % o["kind"]]
+    fails = []
+    if o["kmersize"] != k or (o["sparseat"] >= 0) != c["sparse"]:
+        return ["effective k = %d sparseAt = %d" % (o["kmersize"], o["sparseat"])]
+    q = Counter(v for v, _ in expected_canon(k, c["sparse"], c["s"]))
+    exp = []
+    for r in c["refs"]:
+        rk = Counter(v for v, _ in expected_canon(k, c["sparse"], r))
+        pairs = sum(n * rk[v] for v, n in q.items())
+        exp.append(pairs + 1 if pairs else -1)
+    if o.get("match") != exp:
+        fails.append("Query(q): matches %s, shared canonical k-mers give %s" % (o.get("match"), exp))
+    if o.get("matchrc") != exp:
+        fails.append("Query(rc q): matches %s, Query(q) must give the same %s (strand invariance)" % (o.get("matchrc"), exp))
+    return fails
+
+
 # ------------------------------------------------------------------ 4-mer tables
 def expected_c4(s):
     s = s.lower()
@@ -338,9 +553,9 @@ CORPUS = [
     dict(kind="kmap", w=64, k=32, sparse=False, s="acgtgcatta" * 5, tag="fixed:mask-2k-equals-width"),
     dict(kind="kmap", w=256, k=128, sparse=False, s="acgtgcattg" * 15, tag="fixed:mask-2k-equals-width"),
     dict(kind="c4", s="acg", tag="fixed:encode4mer-length-3"),
-    dict(kind="dbg", k=2, seqs=[dict(s="nac", count=1)], tag="known:iupac-prefix-multiplicity"),
-    dict(kind="dbg", k=2, seqs=[dict(s="acn", count=1)], tag="known:iupac-prefix-multiplicity"),
-    dict(kind="dbg", k=2, seqs=[dict(s="nacn", count=1)], tag="known:iupac-prefix-multiplicity"),
+    dict(kind="dbg", k=2, seqs=[dict(s="nac", count=1)], tag="fixed:iupac-prefix-multiplicity"),
+    dict(kind="dbg", k=2, seqs=[dict(s="acn", count=1)], tag="fixed:iupac-prefix-multiplicity"),
+    dict(kind="dbg", k=2, seqs=[dict(s="nacn", count=1)], tag="fixed:iupac-prefix-multiplicity"),
     # boundary cases
     dict(kind="dbg", k=3, seqs=[]),
     dict(kind="dbg", k=3, seqs=[dict(s="ac", count=5)]),
@@ -445,6 +660,61 @@ def gen_c4(rng):
     return dict(kind="c4", s=s, reuse=rng.random() < 0.5)
 
 
+def gen_cons(rng):
+    """reads shaped like an obiconsensus cluster: one amplicon (60-140 bp, no long repeat most of the time), 3-25 reads with
+    0-3 errors each (substitutions mostly; errors near the 3' end make bubbles that close just before the sink), counts as written
+    by obiuniq in the count attribute; the k-mer size is left to the tool (-1)"""
+    L = rng.randrange(30, 140)
+    base = rand_seq(rng, L)
+    if rng.random() < 0.15:
+        i = rng.randrange(0, L - 8)
+        base = base[:i] + base[i:i + rng.randrange(4, 9)] * 2 + base[i:]          # tandem repeat: the tool has to raise k
+    seqs = [dict(s=base, count=rng.choice([3, 10, 57, 1000, 12345]))]
+    for _ in range(rng.randrange(2, 25)):
+        t = base
+        for _ in range(rng.choice([0, 1, 1, 1, 2, 3])):
+            if rng.random() < 0.5:
+                i = rng.randrange(max(0, len(t) - 25), len(t))
+                t = t[:i] + rng.choice("acgt") + t[i + 1:]
+            else:
+                t = mutate(rng, t)
+        if rng.random() < 0.1:
+            t = t[:rng.randrange(len(t) // 2, len(t) + 1)]
+        if rng.random() < 0.04:
+            t = sprinkle(rng, t, 1.0, alpha="ryswkmn", maxn=1)
+        if len(t) >= 12:
+            seqs.append(dict(s=t, count=rng.choice([1, 1, 1, 1, 2, 3, 5, 20])))
+    return dict(kind="cons", seqs=seqs)
+
+
+def gen_ksim(rng):
+    """obikmersim / obikmermatch: Uint128 index, k = 30 by default (or -k), dense or --sparse; related references and a query"""
+    sparse = rng.random() < 0.3
+    k = rng.choice([30, 30, 30, 31, 16, 20, 33, 34, 40, 48, 63, 64, 8, 12])
+    if 2 * eff_k(k, sparse) > 128:
+        k -= 2                                     # -k 64 --sparse would be a 65-mer: does not fit Uint128
+    L = rng.randrange(max(20, eff_k(k, sparse)), 220)
+    base = rand_seq(rng, L)
+    refs = []
+    for _ in range(rng.randrange(1, 6)):
+        t = base
+        for _ in range(rng.choice([0, 1, 2, 4])):
+            t = mutate(rng, t)
+        if rng.random() < 0.3:
+            t = rc(t)
+        if rng.random() < 0.1:
+            t = sprinkle(rng, t, 1.0, maxn=2)
+        refs.append(t)
+    if rng.random() < 0.2:
+        refs.append(rand_seq(rng, rng.randrange(10, 100)))
+    q = base
+    for _ in range(rng.choice([0, 0, 1, 2])):
+        q = mutate(rng, q)
+    if rng.random() < 0.15:
+        q = q[:len(q) // 2] + rc(q[:len(q) // 2])
+    return dict(kind="ksim", w=128, k=k, sparse=sparse, refs=refs, s=q)
+
+
 def gen_cases(ctx, n):
     rng = ctx.rng
     cases = [dict(c) for c in CORPUS]
@@ -452,13 +722,15 @@ def gen_cases(ctx, n):
         cases.append(gen_dbg(rng))
     for _ in range(n):
         cases.append(gen_kmap(rng))
+    for _ in range(max(10, n // 6)):
+        cases.append(gen_ksim(rng))
     for _ in range(max(20, n // 4)):
         cases.append(gen_c4(rng))
     return cases
 
 
 def strip(c):
-    return {k: v for k, v in c.items() if k != "tag"}
+    return {k: v for k, v in c.items() if k not in ("tag", "expect_cons")}
 
 
 # ------------------------------------------------------------------ Coq rendering
@@ -470,37 +742,50 @@ def seq_term(s):
     return nlist(s.lower().encode())
 
 
+def old_term(c, o):
+    """round-1 comparison: weights, heads and - graphs up to FULL_NODES - verdict and weight of the path against the SPECIFICATION"""
+    seqs = "[" + ";".join("(%s,%d)" % (seq_term(q["s"]), q["count"]) for q in c["seqs"]) + "]"
+    nodes = "[" + ";".join("(%s,%d)" % (n["kmer"], n["w"]) for n in o.get("nodes") or []) + "]"
+    heads = nlist(o.get("heads") or [])
+    if o["pathnil"] or o["pathpanic"] or not o.get("path"):
+        pw = "None"
+    else:
+        wt = {n["kmer"]: n["w"] for n in o["nodes"]}
+        pw = "(Some %d)" % sum(wt.get(x, 0) for x in o["path"])
+    full = len(o.get("nodes") or []) <= FULL_NODES
+    return "CDbg %d %s %s %s %s %s %s" % (c["k"], seqs, nodes, heads, "true" if full else "false", "true" if o["hascycle"] else "false", pw)
+
+
 def case_term(c, o, o_rc=None):
     if c["kind"] == "dbg":
         seqs = "[" + ";".join("(%s,%d)" % (seq_term(q["s"]), q["count"]) for q in c["seqs"]) + "]"
-        nodes = "[" + ";".join("(%s,%d)" % (n["kmer"], n["w"]) for n in o.get("nodes") or []) + "]"
-        heads = nlist(o.get("heads") or [])
-        if o["pathnil"] or o["pathpanic"] or not o.get("path"):
-            pw = "None"
+        old = old_term(c, o)
+        algo = len(o.get("nodes") or []) <= ALGO_NODES and not o.get("pathskipped")
+        if o["pathpanic"]:
+            path = "PPanic"
+        elif o["pathnil"]:
+            path = "PNil"
         else:
-            wt = {n["kmer"]: n["w"] for n in o["nodes"]}
-            pw = "(Some %d)" % sum(wt.get(x, 0) for x in o["path"])
-        full = len(o.get("nodes") or []) <= FULL_NODES
-        return "CDbg %d %s %s %s %s %s %s" % (c["k"], seqs, nodes, heads, "true" if full else "false", "true" if o["hascycle"] else "false", pw)
+            path = "(PSome %s)" % nlist(o.get("path") or [])
+        cons = "None" if o["conserr"] else "(Some %s)" % nlist(o["consensus"].encode())
+        return "C2Dbg (%s) %d %s %s %s %s %s %s" % (old, c["k"], seqs, "true" if algo else "false", "true" if o["hascycle"] else "false",
+                                                   path, nlist((o.get("decoded") or "").encode()), cons)
     if c["kind"] == "kmap":
         def ob(x):
             if x["kind"] != "kmap":
                 return "None"
             return "(Some %s)" % nlist(sorted(obs_vals(x)))
-        return "CKmap %d %d %s %s %s %s" % (c["w"], c["k"], "true" if c["sparse"] else "false", seq_term(c["s"]), ob(o), ob(o_rc))
+        return "C2Old (CKmap %d %d %s %s %s %s)" % (c["w"], c["k"], "true" if c["sparse"] else "false", seq_term(c["s"]), ob(o), ob(o_rc))
     if c["kind"] == "c4":
         if o["kind"] != "c4":
-            return "CC4 %s None" % seq_term(c["s"])
-        return "CC4 %s (Some %s)" % (seq_term(c["s"]), "[" + ";".join("(%d,%d)" % (a, b) for a, b in o.get("table") or []) + "]")
+            return "C2Old (CC4 %s None)" % seq_term(c["s"])
+        return "C2Old (CC4 %s (Some %s))" % (seq_term(c["s"]), "[" + ";".join("(%d,%d)" % (a, b) for a, b in o.get("table") or []) + "]")
     raise ValueError(c["kind"])
 
 
-IMPORTS = "From Coq Require Import NArith List Bool. Import ListNotations. Open Scope N_scope.\nFrom OBI.C19 Require Import Model."
+IMPORTS = "From Coq Require Import NArith List Bool. Import ListNotations. Open Scope N_scope.\nFrom OBI.C19 Require Import Model Algo Corr."
 
 KNOWN_TEXT = {
-    "iupac-prefix-multiplicity": "DeBruijnGraph.Push counts a k-mer window once per IUPAC expansion of the bases that precede it "
-                                 "(`nac` gives weight 4 to `ac`, `acn` gives 1): weights of sequences with ambiguity codes are not "
-                                 "count x occurrences under any symmetric reading",
     "count4-uint16-wrap": "Count4Mer tables are uint16: a 4-mer occurring more than 65535 times in one sequence wraps (poly-a of 65539 bases counts 0)",
 }
 
@@ -516,6 +801,7 @@ def evaluate(ctx, cases, broken, label, corr=True):
     obs_flat = ctx.vh_robust("c19", flat, timeout=600, one_timeout=30)
     obs = [(obs_flat[i], obs_flat[i + 1] if cases[j]["kind"] == "kmap" else None) for j, i in enumerate(where)]
     nviol = 0
+    oracle_bad = set()
     for i, (c, (o, o2)) in enumerate(zip(cases, obs)):
         key = None
         if o["kind"] == "crash" or (o2 and o2["kind"] == "crash"):
@@ -524,6 +810,8 @@ def evaluate(ctx, cases, broken, label, corr=True):
             fails, key = check_dbg(c, o)
         elif c["kind"] == "kmap":
             fails = check_kmap(c, o, o2)
+        elif c["kind"] == "ksim":
+            fails = check_ksim(c, o)
         else:
             fails, key = check_c4(c, o)
         if key:
@@ -533,31 +821,62 @@ def evaluate(ctx, cases, broken, label, corr=True):
                 fails = fails + [KNOWN_TEXT[key]]
         if fails:
             nviol += 1
+            oracle_bad.add(i)
             if nviol <= 4:
-                ctx.violation("%s_oracle_%d" % (label, i), dict(property="C19", kind="direct-oracle", case=strip(c), failures=fails,
+                ctx.violation("%s_oracle_%d" % (label, i), dict(property="C19", kind="direct-oracle", case={k: v for k, v in c.items() if k != "tag"}, failures=fails,
                                                               implementation=o, implementation_rc=o2))
     mism = []
     if corr:
         # (the 65 kb witness of the uint16 wrap is checked by the oracle only: its literal overflows coqc's stack)
         idx = [i for i, (o, o2) in enumerate(obs) if o["kind"] != "crash" and not (o2 and o2["kind"] == "crash")
-               and len(cases[i].get("s", "")) <= 5000]
-        bad, err = ctx.correspond(label, IMPORTS, [case_term(cases[i], *obs[i]) for i in idx], shard=25 if len(idx) < 2000 else 150)
+               and len(cases[i].get("s", "")) <= 5000 and cases[i]["kind"] != "ksim"]
+        terms, owner = [], []
+        for i in idx:
+            terms.append(case_term(cases[i], *obs[i]))
+            owner.append(i)
+            o = obs[i][0]
+            if cases[i]["kind"] == "kmap" and o["kind"] == "kmap" and o.get("strs") and 2 * eff_k(cases[i]["k"], cases[i]["sparse"]) <= cases[i]["w"]:
+                # KmerAsString of the keys (at most 12 per case: first, last and a spread)
+                pairs = list(zip(obs_vals(o), o["strs"]))
+                step = max(1, len(pairs) // 10)
+                pairs = pairs[::step] + pairs[-1:]
+                terms.append("C2Kstr %d %d %s [%s]" % (cases[i]["w"], cases[i]["k"], "true" if cases[i]["sparse"] else "false",
+                                                      ";".join("(%d,%s)" % (v, nlist(st.encode())) for v, st in pairs)))
+                owner.append(i)
+        bad, err = ctx.correspond(label, IMPORTS, terms, fn="mismatches2", shard=25 if len(terms) < 2000 else 150)
         if bad is None:
             broken.append(dict(kind="correspondence", detail=err))
         else:
-            mism = [idx[i] for i in bad]
+            mism = sorted({owner[i] for i in bad})
+            # the property allows ANY walk of maximal weight: a graph case whose path differs from the transcription of the
+            # algorithm but agrees on everything the statement speaks of (weights, heads, verdict, validity and total weight of
+            # the path - second pass with the round-1 comparison, plus the direct oracle above) is a tie-break difference, not an alarm
+            redo = [i for i in mism if cases[i]["kind"] == "dbg"]
+            if redo:
+                weak = ["C2Old (%s)" % old_term(cases[i], obs[i][0]) for i in redo]
+                bad2, err2 = ctx.correspond(label + "_weak", IMPORTS, weak, fn="mismatches2", shard=25)
+                if bad2 is not None:
+                    still = {redo[j] for j in bad2}
+                    ties = [i for i in redo if i not in still and i not in oracle_bad]
+                    if ties:
+                        ctx.cov["path_differs_from_transcription_same_weight"] = ctx.cov.get("path_differs_from_transcription_same_weight", 0) + len(ties)
+                    mism = [i for i in mism if i not in ties]
     return obs, mism, nviol
 
 
 def nontrivial(c):
     if c["kind"] == "dbg":
         return any(len(q["s"]) >= c["k"] for q in c["seqs"])
-    if c["kind"] == "kmap":
+    if c["kind"] in ("kmap", "ksim"):
         return len(c["s"]) > eff_k(c["k"], c["sparse"])
     return len(c["s"]) >= 4
 
 
 def run(ctx, broken):
+    t = getattr(ctx, "_c19_tables", None) or dump_tables(ctx)
+    replay_tables(ctx, t)
+    ctx.cov["regenerated_tables"] = "iupac %d letters, revcompnuc %d, decode %d, __single_base_code__ %d entries; %d table obligations failing" % (
+        len(t["iupac"]), len(t["revcomp"]), len(t["decode"]), len(t["single"]), len(table_failures(t)))
     n = 220 if ctx.quick else 2500
     cases = gen_cases(ctx, n)
     if not ctx.quick:
@@ -571,7 +890,40 @@ def run(ctx, broken):
                 cases.append(dict(kind="kmap", w=64, k=3, sparse=True, s=s))
                 cases.append(dict(kind="dbg", k=2 + (nex % 2), seqs=[dict(s=s, count=1 + nex % 3)]))
                 nex += 1
-        ctx.cov["exhaustive"] = "all %d sequences over {a,c,g,t} of length 1..6: index dense k=2 and sparse k=3 on both strands, graph of the single sequence k=2/3" % nex
+        ctx.cov["exhaustive"] = True
+        ctx.cov["exhaustive_scope"] = "all %d sequences over {a,c,g,t} of length 1..6: index dense k=2 and sparse k=3 on both strands, graph of the single sequence k=2/3" % nex
+    # obiconsensus call path: the tool estimates k (longest repeat inside a read + 1, raised while HasCycle), counts come from the
+    # count attribute; the reads then go through the graph checks (oracle + Coq model of the algorithms) at the k the tool chose
+    cons = [gen_cons(ctx.rng) for _ in range(40 if ctx.quick else 500)]
+    obs_c = ctx.vh_robust("c19", cons, timeout=900, one_timeout=60)
+    tool = Counter()
+    for i, (c, o) in enumerate(zip(cons, obs_c)):
+        if o["kind"] != "cons":
+            tool["crash"] += 1
+            if tool["crash"] <= 2:
+                ctx.violation("cons_crash_%d" % i, dict(property="C19", kind="direct-oracle", case=c, failures=["obiconsensus.BuildConsensus crashed or hung"], implementation=o))
+            continue
+        if o["conserr"]:
+            tool["no consensus (%s)" % o.get("err", "")] += 1
+            continue
+        k = o["consk"]
+        # the k chosen by the tool: the smallest k >= (longest repeat inside one read) + 1 whose graph is acyclic
+        k0 = 1 + max(longest_repeat(q["s"].lower()) for q in c["seqs"])
+        kk = k0
+        while kk < 64 and has_cycle(graph_of(set(expected_weights(kk, c["seqs"], "prefix")), kk)):
+            kk += 1
+        if kk != k:
+            tool["k differs from the smallest acyclic k"] += 1
+        if kk != k and tool["k differs from the smallest acyclic k"] <= 3:
+            ctx.violation("cons_k_%d" % i, dict(property="C19", kind="direct-oracle", case=c, implementation=o,
+                                               failures=["BuildConsensus stopped at k=%d, the smallest acyclic k >= %d is %d" % (k, k0, kk)]))
+        if not 2 <= k <= 31:
+            tool["k outside 2..31"] += 1
+            continue
+        tool["k=%d%s" % (k, "" if k == k0 else " (raised from %d)" % k0)] += 1
+        cases.append(dict(kind="dbg", k=k, seqs=c["seqs"], expect_cons=dict(consensus=o["consensus"], consgraph=o["consgraph"],
+                                                                           consmaxw=o["consmaxw"], consw=o["consw"])))
+    ctx.cov["obiconsensus_call_path"] = dict(tool)
     obs, mism, nviol = evaluate(ctx, cases, broken, "main")
     ctx.cov["evaluations"] = len(cases) + sum(1 for c in cases if c["kind"] == "kmap")
     ctx.cov["distinct_nontrivial"] = len({json.dumps(strip(c), sort_keys=True) for c in cases if nontrivial(c)})
@@ -582,7 +934,9 @@ def run(ctx, broken):
         if c["kind"] == "dbg":
             kind = "empty" if not o.get("nodes") else "cycle" if o.get("hascycle") else "acyclic"
             amb = "iupac" if any(ch in AMBIG for q in c["seqs"] for ch in q["s"].lower()) else "acgt"
-            dist["dbg/k%s/%s/%s" % ("<8" if c["k"] < 8 else "8-31", kind, amb)] += 1
+            dist["dbg%s/k%s/%s/%s" % ("(obiconsensus)" if "expect_cons" in c else "", "<8" if c["k"] < 8 else "8-31", kind, amb)] += 1
+        elif c["kind"] == "ksim":
+            dist["ksim/k%d/%s" % (c["k"], "sparse" if c["sparse"] else "dense")] += 1
         elif c["kind"] == "kmap":
             dist["kmap/%d/%s/%s" % (c["w"], "sparse" if c["sparse"] else "dense", "2k=w" if 2 * eff_k(c["k"], c["sparse"]) == c["w"] else "2k<w")] += 1
         else:
@@ -602,6 +956,10 @@ def run(ctx, broken):
 
 
 def replay(ctx, rp):
+    if rp.get("kind") == "table-obligation":
+        bad = table_failures(dump_tables(ctx))
+        print("replay: obikmer tables of the current build, symbol %r:" % rp.get("symbol"),
+              [w for w, s in bad if s == rp.get("symbol")] or "obligations hold", "| all failing symbols:", sorted({s for _, s in bad}))
     c = rp["case"]
     obs, mism, nviol = evaluate(ctx, [c], [], "replay")
     print("replay:", json.dumps(c), "->", json.dumps(obs[0][0])[:600], "| oracle:", "VIOLATION" if ctx.violations else "ok",
